@@ -81,6 +81,12 @@ def build_corpus(tier, rng):
         Variant("B", "tuple", [Field("u8")], [doc(" first"), raw('doc(alias = "bee")'), doc(" second"), msg("m-b"), ser("bee")]),
         Variant("C", "unit", [], [raw("allow(dead_code)"), raw("doc(hidden)"), DISABLED, msg("never")]),
         Variant("D", "named", [Field("u8", "x")], [msg("m-d"), raw("doc(hidden)"), det("d-d"), doc(" tail doc")])])))
+    # a doc attribute whose value is COMPUTED (concat!, stringify!) carries no literal text for strum: it is skipped, the literal lines around it stay
+    items.append(("computed-docs", Item("E", [
+        Variant("A", "unit", [], [raw('doc = concat!("Hot", "test")'), doc(" Hottest planet.")]),
+        Variant("B", "tuple", [Field("u8")], [doc(" First."), raw('doc = stringify!(second)'), doc(" Third."), doc(" Fourth."), msg("m")]),
+        Variant("C", "unit", [], [doc(" Only literal."), raw('doc = concat!("tail")')]),
+        Variant("D", "named", [Field("u8", "f")], [raw('doc = concat!("alone")')])])))
     # an EMPTY literal is a literal: Some("") is not None and not the fallback
     items.append(("empty-literals", Item("E", [
         Variant("A", "unit", [], [msg("short"), det("")]), Variant("B", "tuple", [Field("u8")], [det("")]), Variant("C", "unit", [], [msg("")]),
